@@ -57,7 +57,7 @@ def gen(rng, idx, tier):
         solver = "auto"
     n = int(rng.integers(3, 25 if tier == "thorough" else 10))
     nobj = 2 if rng.random() < 0.2 else 1
-    flags = bool(rng.random() < 0.3)
+    flags = [False, False, "both", "sym_only", "herm_only"][int(rng.integers(0, 5))]
     part = str(rng.choice(["free", "prescribed", "both"]))
     p_cplx_rhs = float(rng.choice([0.0, 0.4])) if (cplx or storage == "dense") and kind == "LinSolve" else 0.0
     p_fault = 0.2 if storage == "dense" and cls in ("spd", "hpd", "hindef_posdiag") else 0.0
@@ -137,7 +137,10 @@ class Inst:
                 cls = case["cls"]
                 sym = cls in ("sym", "spd", "csym", "hindef_posdiag") and not (cls == "hindef_posdiag" and case["cplx"])
                 herm = cls in ("herm", "hpd", "hindef_posdiag") or (not case["cplx"] and sym)
-                kw["symmetric"], kw["hermitian"] = sym, herm
+                if case["flags"] in (True, "both", "sym_only"):
+                    kw["symmetric"] = sym
+                if case["flags"] in (True, "both", "herm_only"):
+                    kw["hermitian"] = herm
         self.sA = S("A")
         if kind == "LinSolve":
             self.sb, self.sx = S("b"), S("x")
